@@ -2,7 +2,7 @@
 import os
 import re
 
-from ..cfgq import bool_edges, promoted_tree, stmt_loc
+from ..cfgq import bool_edges, cond_tree, explore, promoted_tree, stmt_loc
 from ..facts import AnchorError, Origins, callee_name, method_name, peel, strip_mods, TRANSPARENT
 from ..fmtq import FmtError, pieces
 from . import escape_tables
@@ -276,25 +276,81 @@ def r4_4(ctx):
             n_escape += 1
             ctx.ok("glob-escaped", where, "other characters pass through regex::escape")
         else:
-            # raw copy of a character: only inside the backslash arm on the contains(['*','?','\\']) edge
-            in_bs = excl == [ord("\\")]
+            # raw copy of a character: only for the escaped pair, i.e. unreachable within an iteration unless both the `ch == '\\'`
+            # edge and the `next in {*,?,\\}` edge are taken (arm + guard, or a hoisted look-ahead; decided path-sensitively)
+            in_bs = _raw_copy_guarded(ctx, g, o, bb, back)
             ctx.check(in_bs, "glob-raw-copy", where, "raw copy of a character only for the escaped pair `\\` + one of * ? \\",
                       "glob_to_regex_string copies %s into the regex unescaped outside the `\\x` escape arm" % arg.show()[:80])
     ctx.check(n_escape >= 1, "glob-escape-present", g.where(), "the default arm escapes through regex::escape",
               "no write into the regex passes regex::escape: literal characters are no longer escaped")
-    # the pair table of the backslash arm
+    vals = _escape_pair_values(ctx, g, o)
+    ctx.check(vals == sorted(["*", "?", "\\"]), "glob-escape-pairs", g.where(), "escapable glob characters are exactly * ? \\",
+              "escapable glob characters are %s" % vals)
+
+
+def _bs_edges(g, o):
+    """CFG edges taken exactly when the current character is a backslash"""
+    out = []
+    for bi, b in enumerate(g.blocks):
+        t = b["term"]
+        if t["k"] != "switch":
+            continue
+        if t["ty"] == "char":
+            arms = {int(v): tg for v, tg in t["targets"]}
+            if 0x5c in arms and arms[0x5c] != t["otherwise"] and list(arms.values()).count(arms[0x5c]) == 1:
+                out.append((bi, arms[0x5c]))
+        else:
+            be = bool_edges(g, bi)
+            if be:
+                tree = cond_tree(g, bi, o)
+                neg = False
+                while tree.kind == "un" and tree.a == "Not":
+                    neg, tree = not neg, tree.kids[0]
+                if tree.kind == "bin" and tree.a in ("Eq", "Ne") and any(k.kind == "const" and k.a.as_char() == "\\" for k in tree.kids):
+                    if tree.a == "Ne":
+                        neg = not neg
+                    out.append((bi, be[1] if neg else be[0]))
+    return out
+
+
+def _member_edges(ctx, g, o):
+    """(edges taken exactly when the look-ahead character is one of the escapable set, that set)"""
+    edges, vals = [], None
     for bb, t in g.calls():
         if method_name(callee_name(t, resolved=False) or "") in ("slice::contains", "contains"):
             tb = peel(o.operand(t["args"][0]))
-            vals = None
             if tb.kind == "const":
                 pt = promoted_tree(ctx.prog, g, tb.a)
                 if pt is not None:
                     arr = peel(pt)
                     if arr.kind == "agg":
                         vals = sorted(peel(k).a.as_char() for k in arr.kids if peel(k).kind == "const")
-            ctx.check(vals == sorted(["*", "?", "\\"]), "glob-escape-pairs", g.loc(bb), "escapable glob characters are exactly * ? \\",
-                      "escapable glob characters are %s" % vals)
+            be = bool_edges(g, t["target"])
+            if be:
+                edges.append((t["target"], be[0]))
+    for bi, b in enumerate(g.blocks):
+        t = b["term"]
+        if t["k"] == "switch" and t["ty"] == "char":
+            arms = {int(v): tg for v, tg in t["targets"]}
+            tgs = set(arms.values())
+            if len(arms) >= 2 and len(tgs) == 1 and t["otherwise"] not in tgs:
+                edges.append((bi, tgs.pop()))
+                vals = sorted(chr(v) for v in arms)
+    return edges, vals
+
+
+def _escape_pair_values(ctx, g, o):
+    return _member_edges(ctx, g, o)[1]
+
+
+def _raw_copy_guarded(ctx, g, o, bb, back):
+    bs = _bs_edges(g, o)
+    mem, _ = _member_edges(ctx, g, o)
+    if not bs or not mem:
+        return False
+    without_bs = explore(g, 0, removed_edges=list(back) + bs)
+    without_mem = explore(g, 0, removed_edges=list(back) + mem)
+    return bb not in without_bs and bb not in without_mem and bb in explore(g, 0, removed_edges=list(back))
 
 
 def r4_5(ctx):
